@@ -409,7 +409,7 @@ theorem walinv_stepSnapBegin {s : State} (hi : Inv s) (h : WalInv s) : WalInv (s
            simp only [walCloseSegment, hr', Bool.false_eq_true, if_false]; exact hs.post_S
          · intro h'; exact hs.S_snap (by simpa [walCloseSegment, hp] using h')
          · intro h'; simp [walCloseSegment, hp] at h')
-    | exact h
+    | exact h.congr rfl rfl rfl rfl rfl rfl rfl rfl
 
 theorem filter_not_pre {pre mid : List Segment} {cur : List Segment}
     (hp : ((pre ++ mid ++ cur).map (·.id)).Pairwise (· < ·)) :
